@@ -73,7 +73,7 @@ def run(rng, tier, res=None, want=("arcs", "pdf", "cluster")):
 
     fn = lambda a, b: 0.0  # noqa  (never called: pre-computed matrices)
     kinds = ["lattice", "lattice", "dups", "tiny", "allequal", "distinct", "distinct", "real", "real"]
-    for case in range(320 * scale):
+    for case in range((480 if "cluster" in want else 320) * scale):
         n = rng.choice([1, 2, 3, 4, 5, 6, 7, 8, 10, 12 if tier == "quick" else 18])
         kind = rng.choice(kinds)
         extra = rng.choice([0, 0, 2])
@@ -187,12 +187,28 @@ def run(rng, tier, res=None, want=("arcs", "pdf", "cluster")):
                         msgs.append(f"cost[{i}] after eliminating height {h} is {sg.nodes[i].cost}, expected {wv}")
                 viol("C12", msgs, dict(meta, h=h))
             # optional hand-set plateau densities (few distinct values)
-            if rng.random() < 0.4:
+            hs = rng.random()
+            if hs < 0.3:
                 vals = rng.sample([3.0, 5.0, 8.0, 13.0], rng.choice([1, 2, 3]))
                 for i in range(n):
                     sg.nodes[i].density = rng.choice(vals)
                     sg.nodes[i].cost = sg.nodes[i].density - 1
                 res.hit("cluster_handset_density")
+            elif hs < 0.6:
+                # densities squeezed into a band narrower than one unit (what a far outlier does to the rest)
+                base = rng.choice([2.0, 500.0, 999.0])
+                for i in range(n):
+                    sg.nodes[i].density = base + rng.choice([0.0, 0.2, 0.4, 0.6, 0.8, 1.0, 1.3]) if rng.random() < 0.85 else 1.0
+                    sg.nodes[i].cost = sg.nodes[i].density - 1
+                res.hit("cluster_narrow_band_density")
+            # optional hand-set adjacency: any lists of k distinct other nodes (asymmetric arcs are the rule
+            # in a k-NN graph; random ones exercise structures that small metric data rarely produces)
+            if "cluster" in want and n >= 3 and rng.random() < (0.8 if 0.3 <= hs < 0.6 else 0.3):
+                for i in range(n):
+                    others = [j for j in range(n) if j != i]
+                    sg.nodes[i].adjacency = [float(j) for j in rng.sample(others, k)]
+                    sg.nodes[i].n_plateaus = 0
+                res.hit("cluster_handset_adjacency")
             # ---- clustering ----
             if "cluster" in want:
                 unsup = rng.random() < 0.5
